@@ -13,9 +13,14 @@ start/last heights are the oldest()/latest() used in its filter, the next page c
 advance_and_resize, and the page is advanced only in the success closure (an RPC error does not skip
 a page); (3) RelayerDb::insert_events: every event's da_height must equal the key (else error)
 before EventsHistory is written; insert and commit are in one storage transaction; a decreasing
-latest height is an error.
+latest height is an error; (4) pager contiguity, structural part: EthSyncPage::advance /
+advance_and_resize compute the next window as [start + old size, min(end + next size, gap end)] with the
+old size read before it is overwritten, return None when empty, and EthSyncGap::page starts at oldest()
+with last = start + (size - 1) clamped to latest(); (5) sync start: the initial synced height is the
+stored finalized height or da_deploy_height - 1, EthState.local is that observed height, and the gap
+handed to download_logs is [local + 1, remote].
 """
-NOT_DECIDED = """Pager arithmetic (EthSyncGap::page, AdaptivePageSizer); the Ethereum node's answers."""
+NOT_DECIDED = """Numeric behaviour of the pager beyond the operand structure (saturation at u64::MAX, AdaptivePageSizer sizes); the Ethereum node's answers."""
 
 CR = ["fuel_core_relayer"]
 GL = "fuel_core_relayer::service::get_logs"
@@ -139,3 +144,96 @@ def check(ctx):
         lt = ctx.rel_tests(b, "Lt")
         ctx.test_leads_to_error("3.height-regression-rejects", b, lt, truth=True, detail="a decreasing latest DA height is an error")
         ctx.only_table_writers("3.history-writers", "EventsHistory", {us[0].q: {"insert"}}, CR)
+
+    # -- 4. pager: consecutive pages are contiguous (structural part of the window arithmetic) --
+    with ctx.clause("4.pager-contiguity"):
+        ST = "fuel_core_relayer::service::state"
+        PGQ = f"{ST}::EthSyncPage"
+        SADD = ("u64::saturating_add", "core::num::<impl u64>::saturating_add")
+        SSUB = ("u64::saturating_sub", "core::num::<impl u64>::saturating_sub")
+        for fn, end_step in (("advance", f"field:{PGQ}.size"), ("advance_and_resize", "param:2")):
+            b = F.unit(f"{PGQ}::{fn}").root
+            dele = [c for c in b.calls_to(f"{PGQ}::advance") if c.bb in b.live] if fn != "advance" else []
+            if dele and not b.calls_to("core::ops::range::RangeInclusive::new"):
+                szw = [bb for bb, j, s in b.stmts() if bb in b.live and s["k"] == "assign" and s["pl"].get("p") and s["pl"]["p"][-1] == ".size"]
+                ctx.add(f"4.{fn}-old-size-read-before-resize", "ORDER", not any(w == dele[0].bb or b.path([w], [dele[0].bb]) is not None for w in szw),
+                        f"{fn} delegates to advance() after overwriting self.size: the next window starts one *new* page after the previous start, "
+                        "so heights are skipped (growth) or written twice (shrink)", sites=[dele[0].where()], site_key=f"{fn}:order")
+                continue
+            rng = ctx.one_call(b, "core::ops::range::RangeInclusive::new")
+            o = Origins(b, 0)
+            sa = [c for c in b.calls_to(*SADD) if c.bb in b.live]
+            starts = [c for c in sa if atom_match(o.atoms(c.args[0]), "call:core::ops::range::RangeInclusive::start")]
+            ends = [c for c in sa if atom_match(o.atoms(c.args[0]), "call:core::ops::range::RangeInclusive::end")]
+            ctx.expect_sites(f"4.{fn}-start-step", starts, exactly=1, what="current.start().saturating_add(..)")
+            ctx.expect_sites(f"4.{fn}-end-step", ends, exactly=1, what="current.end().saturating_add(..)")
+            # the next window starts one old page after the previous start: start + self.size, with self.size
+            # read before any write to it (the new size applies to the *following* window only)
+            ctx.arg_origin(f"4.{fn}-start-advances-by-old-size", starts[0], 1, f"field:{PGQ}.size", depth=0)
+            szw = [bb for bb, j, s in b.stmts() if bb in b.live and s["k"] == "assign" and s["pl"].get("p") and s["pl"]["p"][-1] == ".size"]
+            ctx.add(f"4.{fn}-old-size-read-before-resize", "ORDER", all(w != starts[0].bb and b.path([w], [starts[0].bb]) is None for w in szw),
+                    "self.size is not overwritten before the new window start is computed", sites=[starts[0].where()], site_key=f"{fn}:order")
+            ctx.arg_origin(f"4.{fn}-end-advances-by-next-size", ends[0], 1, end_step, depth=0)
+            ctx.arg_origin(f"4.{fn}-window-start", rng, 0, "call:u64::saturating_add", depth=0)
+            mn = ctx.one_call(b, "core::cmp::Ord::min")
+            ctx.arg_origin(f"4.{fn}-window-end-clamped", rng, 1, "call:core::cmp::Ord::min", depth=0)
+            ctx.arg_origin(f"4.{fn}-clamp-to-gap-end", mn, 1, f"field:{PGQ}.end", depth=0)
+            fw = [s for bb, j, s in b.stmts() if bb in b.live and s["k"] == "assign" and s["pl"].get("p") and s["pl"]["p"][-1] == ".current"]
+            ctx.expect_sites(f"4.{fn}-window-stored", [str(s.get("line")) for s in fw], exactly=1, what="self.current = next window")
+            ts = ctx.one_call(b, "core::bool::<impl bool>::then_some", "bool::then_some")
+            ctx.arg_origin(f"4.{fn}-none-when-empty", ts, 0, f"call:{PGQ}::is_empty", depth=0)
+        # first page of a gap starts at the oldest height and is clamped to the latest
+        pb = F.unit(f"{ST}::EthSyncGap::page").root
+        rng = ctx.one_call(pb, "core::ops::range::RangeInclusive::new")
+        ctx.arg_origin("4.first-page-starts-at-oldest", rng, 0, f"call:{ST}::EthSyncGap::oldest", depth=0)
+        ctx.arg_origin("4.first-page-clamped", rng, 1, "call:core::cmp::Ord::min", depth=0)
+        mn = ctx.one_call(pb, "core::cmp::Ord::min")
+        ctx.arg_origin("4.first-page-clamp-to-latest", mn, 1, f"call:{ST}::EthSyncGap::latest", depth=0)
+        ss = ctx.one_call(pb, *SSUB)
+        ctx.const_arg("4.first-page-last-is-start-plus-size-minus-1", ss, 1, 1)
+        for acc, idx in (("oldest", ".0"), ("latest", ".1")):
+            ab = F.unit(f"{ST}::EthSyncGap::{acc}").root
+            rd = [s for bb, j, s in ab.stmts() if s["k"] == "assign" and s["pl"]["l"] == 0]
+            okr = len(rd) == 1 and rd[0]["rv"]["k"] == "use" and rd[0]["rv"]["op"].get("p", [None])[-1] == idx
+            ctx.add(f"4.gap-{acc}-is-field{idx}", "PROV", okr, f"EthSyncGap::{acc}() returns self{idx}", sites=[str(rd[0].get('line')) if rd else "?"], site_key=acc)
+
+    # -- 5. where syncing starts: the first gap begins right after the last stored height, or at the deploy height --
+    with ctx.clause("5.sync-start"):
+        ST = "fuel_core_relayer::service::state"
+        nu = F.unit("fuel_core_relayer::service::NotInitializedTask::new")
+        b = nu.root
+        uoe = ctx.one_call(b, "core::option::Option::unwrap_or_else")
+        ctx.arg_origin("5.initial-height-from-storage", uoe, 0, "call:fuel_core_relayer::ports::RelayerDb::get_finalized_da_height", depth=0)
+        cls = [x for x in nu.bodies if x is not b]
+        ctx.expect_sites("5.fallback-closure", [x.defq for x in cls], exactly=1, what="fallback closure for an empty database")
+        cb = cls[0]
+        sub = ctx.one_call(cb, "u64::saturating_sub", "core::num::<impl u64>::saturating_sub")
+        ctx.arg_origin("5.fallback-from-deploy-height", sub, 0, "upvar:config__da_deploy_height__0", depth=0)
+        ctx.const_arg("5.fallback-is-deploy-height-minus-1", sub, 1, 1)
+        ctx.flows("5.fallback-value-returned", sub, to_return=True)
+        ps = [s for bb, j, s in b.stmts() if bb in b.live and s["k"] == "assign" and s["rv"]["k"] == "agg" and s["rv"].get("variant") == "PartiallySynced"]
+        ctx.expect_sites("5.initial-sync-state", [str(s.get("line")) for s in ps], exactly=1, what="SyncState::PartiallySynced(initial height)")
+        o = Origins(b, 0)
+        ctx.add("5.initial-state-holds-that-height", "PROV", bool(ps) and atom_match(o.atoms(ps[0]["rv"]["ops"][0]), "call:core::option::Option::unwrap_or_else"),
+                "the initial synced height is the stored height or the fallback", sites=[str(ps[0].get("line")) if ps else "?"], site_key="init")
+        # the gap starts at local + 1
+        nsu = F.unit(f"{ST}::EthState::needs_to_sync_eth")
+        gb = ctx.body_with(nsu, f"{ST}::EthSyncGap::new")
+        gn = ctx.one_call(gb, f"{ST}::EthSyncGap::new")
+        sa = ctx.one_call(gb, "u64::saturating_add", "core::num::<impl u64>::saturating_add")
+        ctx.arg_origin("5.gap-starts-after-local", sa, 0, f"field:{ST}::EthState.local", depth=1)
+        ctx.const_arg("5.gap-starts-at-local-plus-1", sa, 1, 1)
+        ctx.arg_origin("5.gap-start-arg", gn, 0, "call:u64::saturating_add", depth=0)
+        ctx.arg_origin("5.gap-ends-at-remote", gn, 1, f"field:{ST}::EthState.remote", depth=1)
+        # local is what the task observed (the synced height), remote the finalized DA height
+        be = ctx.body_with(f"{ST}::state_builder::build_eth", f"{ST}::state_builder::EthLocal::observed")
+        ag = [s for bb, j, s in be.stmts() if bb in be.live and s["k"] == "assign" and s["rv"]["k"] == "agg" and s["rv"].get("adt") == f"{ST}::EthState"]
+        ctx.expect_sites("5.state-built", [str(s.get("line")) for s in ag], exactly=1, what="EthState { remote, local }")
+        if ag:
+            f = ag[0]["rv"]["fields"]
+            oo = Origins(be, 1)
+            ctx.add("5.local-is-observed", "PROV", atom_match(oo.atoms(ag[0]["rv"]["ops"][f.index("local")]), f"call:{ST}::state_builder::EthLocal::observed"),
+                    "EthState.local = observed()", sites=[str(ag[0].get("line"))], site_key="local")
+            ctx.add("5.remote-is-finalized", "PROV", atom_match(oo.atoms(ag[0]["rv"]["ops"][f.index("remote")]), f"call:{ST}::state_builder::EthRemote::finalized"),
+                    "EthState.remote = finalized()", sites=[str(ag[0].get("line"))], site_key="remote")
+
